@@ -125,6 +125,10 @@ def run(prop, tier, seed, replay=None):
                      "the TLC behaviour says; the Run loop's exit path and select races are not exercised here",
                      "geometry: 2 pieces of 2+1 blocks, the last block short; 2 peers (one with, one without the fast extension)",
                      "maybeRequest's pipelining (rate dependent) is nondeterministic in the specification"]
+    if replay and json.load(open(replay))["scenario"].get("binding") == "webseed":
+        import p_webseed
+        p_webseed.full_path_probe(v, prop, tier, seed, [json.load(open(replay))["scenario"]])
+        return v.finish()
     if replay:
         scen = [json.load(open(replay))["scenario"]]
     else:
@@ -165,6 +169,10 @@ def run(prop, tier, seed, replay=None):
         v.cov["states"] += r.distinct
         v.cov["transitions"] += r.generated
     v.cov["traces_validated_against_impl"] = len(scen)
+    if prop == "C09" and not replay:
+        # the blocks reserved for web-seed fetches are part of the same bookkeeping
+        import p_webseed
+        p_webseed.full_path_probe(v, prop, tier, seed)
     if prop == "C11" and not replay:
         n = run_c11_tables(v, tier, seed, random.Random(seed))
         v.cov["traces_validated_against_impl"] += n
